@@ -25,4 +25,25 @@ theorem error_position_in_bounds (T : Tables) (txt : Bytes) (opt : Opt) (e : Err
     1 ≤ e.pos.row ∧ e.pos.row ≤ lineCount txt ∧ 1 ≤ e.pos.col :=
   parse_error_position_in_bounds T txt opt e h
 
+/-- The line that contains byte offset `q`: from after the preceding LF up to (excluding) the next
+LF. -/
+def lineAt (txt : Bytes) (q : Nat) : Bytes :=
+  ((txt.take q).reverse.takeWhile (· != 10)).reverse ++ (txt.drop q).takeWhile (· != 10)
+
+/-- **Column upper bound**: the column `text_pos_at` reports for any offset is at most the number of
+characters of the line containing the offset, plus one. With `error_position_from_input` this is
+the bound `1 ≤ col ≤ characters in that line + 1` for every error position. -/
+theorem col_le_line (txt : Bytes) (q : Nat) : calcCol txt q ≤ countChars (lineAt txt q) + 1 := by
+  unfold calcCol lineAt countChars
+  rw [List.filter_append, List.length_append, List.filter_reverse, List.length_reverse]
+  omega
+
+theorem error_column_le_line (T : Tables) (txt : Bytes) (opt : Opt) (e : Err)
+    (h : parse T txt opt = .err e) :
+    e.pos = ⟨1, 1⟩ ∨ ∃ q, q ≤ txt.length ∧ e.pos.col ≤ countChars (lineAt txt q) + 1 ∧
+      e.pos.row = calcRow txt q := by
+  rcases error_position_from_input T txt opt e h with h1 | ⟨q, hq, hp⟩
+  · exact Or.inl h1
+  · exact Or.inr ⟨q, hq, by rw [hp]; exact col_le_line txt q, by rw [hp]⟩
+
 end Rox.Props.C14
